@@ -1,4 +1,4 @@
-SPECIFICATION FairSpec
+SPECIFICATION Spec
 CONSTANTS
   Conns = {1}
   Ids = {1, 2}
@@ -6,8 +6,7 @@ CONSTANTS
   WithHist = FALSE
   MaxG = 1
   GenLen = 0
-  DEV = "none"
+  DEV = "garbage_continues"
 INVARIANTS TypeOK OneReply NoReadAfterGiveUp DeadlineClass NilCloses CtxNotEarly DoneIsClean
-PROPERTIES ReplyLive TimeoutCloses EofCloses ClosedCancels ListenerEnds ReadLive
 VIEW ViewNoHist
 CHECK_DEADLOCK FALSE
